@@ -418,6 +418,14 @@ func clientHealth(w *World) {
 	token := "cl-token"
 	r := w.R
 	srv := w.NewScriptServer("10.0.0.1:7000", token)
+	// the server may take its time over a registration (busy, plugins): the backend's health can change while the
+	// reply is still outstanding
+	if late := w.KnobPick("hc_late_reply_s", 0, 0, 3, 8); late > 0 {
+		w.Probe("client.health_with_late_replies")
+		srv.OnNewProxy = func(s *SrvSession, pm M) (M, time.Duration, bool) {
+			return M{"proxy_name": mstr(pm, "proxy_name"), "remote_addr": ":21500"}, time.Duration(late) * time.Second, true
+		}
+	}
 	if err := srv.Start(); err != nil {
 		w.Fail("%v", err)
 	}
